@@ -187,6 +187,14 @@ func (m *Monitors) onEmit(n *Node, e *Emitted) {
 		return
 	}
 	i := n.Idx
+	// ---- C16: only the proposer that the validator-set history gives for (height, round) proposes
+	if e.Kind == "proposal" && m.nt.Sc.Solo == nil {
+		want := m.refProposerAddr(e.Height, e.Round)
+		if want != nil && !bytes.Equal(want, m.nt.Vals[i].Address) {
+			m.report("C16", map[string]string{"kind": "proposal-by-a-replica-that-is-not-the-proposer", "site": "ConsensusState.enterPropose"},
+				fmt.Sprintf("node %d proposes at height %d round %d; the validator-set history alone gives %X as the proposer of that round", i, e.Height, e.Round, want[:4]))
+		}
+	}
 	// ---- C03 (inside consensus): at most one signed value per height/round/step, across restarts
 	if e.Kind == "proposal" || e.Kind == "prevote" || e.Kind == "precommit" {
 		var sb []byte
@@ -337,6 +345,27 @@ func (m *Monitors) afterStep(n *Node) {
 	m.checkStore(n)
 }
 
+// refProposerAddr: the proposer of (h, r) by the monitor's own replica of the validator-set history.
+func (m *Monitors) refProposerAddr(h, r int64) []byte {
+	k := [2]int64{h, r}
+	if m.propRef == nil {
+		m.propRef = map[[2]int64][]byte{}
+	}
+	if want, ok := m.propRef[k]; ok {
+		return want
+	}
+	vs := m.nt.refValidators(h)
+	if r > 0 {
+		vs.IncrementAccum(r)
+	}
+	var want []byte
+	if p := vs.Proposer(); p != nil {
+		want = p.Address
+	}
+	m.propRef[k] = want
+	return want
+}
+
 // checkProposer (C16): the proposer a replica computes for its current (height, round)
 // must be the one that follows from the validator-set history alone: the monitor's own
 // replica of that history advances a fresh genesis set once per height (with the
@@ -349,7 +378,6 @@ func (m *Monitors) checkProposer(n *Node, rs *pbft.RoundState) {
 	k := [2]int64{rs.Height, rs.Round}
 	if m.propChecked == nil {
 		m.propChecked = map[int]map[[2]int64]bool{}
-		m.propRef = map[[2]int64][]byte{}
 	}
 	if m.propChecked[n.Idx] == nil {
 		m.propChecked[n.Idx] = map[[2]int64]bool{}
@@ -358,17 +386,7 @@ func (m *Monitors) checkProposer(n *Node, rs *pbft.RoundState) {
 		return
 	}
 	m.propChecked[n.Idx][k] = true
-	want, ok := m.propRef[k]
-	if !ok {
-		vs := m.nt.refValidators(rs.Height)
-		if rs.Round > 0 {
-			vs.IncrementAccum(rs.Round)
-		}
-		if p := vs.Proposer(); p != nil {
-			want = p.Address
-		}
-		m.propRef[k] = want
-	}
+	want := m.refProposerAddr(rs.Height, rs.Round)
 	got := rs.Validators.Proposer()
 	m.propCompared++
 	if got == nil || want == nil || bytes.Equal(got.Address, want) {
